@@ -4,6 +4,7 @@ import (
 	"context"
 	"encoding/hex"
 	"fmt"
+	"sort"
 	"testing"
 
 	"github.com/wader/fq/pkg/bitio"
@@ -183,7 +184,37 @@ func TestBinary(t *testing.T) {
 		labelOpts(c, o)
 		c.Label(fmt.Sprintf("unit=%d", unit))
 
-		root, err := interp.NewBinaryFromBitReader(bitio.NewBitReader(data, nbits), unit, 0)
+		// the buffer behind the binary: one flat buffer, or the same bits as a
+		// concatenation of parts (what `[a, b] | tobytes` builds: a multi reader,
+		// whose reads are short at part boundaries, so the dump writers get their
+		// input in pieces of any length; seed C10-5)
+		var br bitio.ReaderAtSeeker = bitio.NewBitReader(data, nbits)
+		if len(data) > 1 && rapid.IntRange(0, 3).Draw(rt, "chunked") == 0 {
+			var cuts []int
+			for i, n := 0, rapid.IntRange(1, 5).Draw(rt, "ncuts"); i < n; i++ {
+				cuts = append(cuts, rapid.OneOf(rapid.IntRange(1, len(data)-1), rapid.IntRange(1, min(len(data)-1, 40))).Draw(rt, "cut_at"))
+			}
+			sort.Ints(cuts)
+			var parts []bitio.ReadAtSeeker
+			prev := 0
+			for _, k := range append(cuts, len(data)) {
+				if k <= prev {
+					continue
+				}
+				if k == len(data) {
+					parts = append(parts, bitio.NewBitReader(data[prev:], nbits-int64(prev)*8))
+				} else {
+					parts = append(parts, bitio.NewBitReader(data[prev:k], -1))
+				}
+				prev = k
+			}
+			if mr, merr := bitio.NewMultiReader(parts...); merr == nil {
+				br = mr
+				c.Set("parts_cut_at", cuts)
+				c.Label("buffer-is-concatenation-of-parts")
+			}
+		}
+		root, err := interp.NewBinaryFromBitReader(br, unit, 0)
 		if err != nil {
 			c.Failf("harness-error", "NewBinaryFromBitReader: %v", err)
 		}
